@@ -3,6 +3,7 @@ use ohmc::props::c16::*;
 use ohmc_core::explore::*;
 
 fn main() {
+    ohmc::props::deep::maybe_child::<B>("C16");
     let mut ctx = Ctx::from_args("C16");
     let quick = ctx.quick();
     let us: Vec<Progs> = if quick {
@@ -32,6 +33,11 @@ fn main() {
     let sizes: Vec<usize> = if quick { vec![33, 64, 65, 129] } else { vec![33, 64, 65, 129, 255, 256, 257, 513] };
     let big = ohmc::props::structured::programs_at(&sizes, false);
     ctx.run_slice(Slice::new(format!("structured-programs-large[sizes {:?}: {} programs, 3 patterned input vectors each]", sizes, big.len()), big.len() as u64, |i, loc| check_large::<B>(&big[i as usize].1, loc)));
+    // deep diagrams (a dependency chain of tens of thousands of operations), each in a child process on a 2 MiB stack:
+    // the call has to come back, and with the answer known in closed form
+    let deep_sizes: Vec<usize> = if ctx.quick() { vec![30_000] } else { vec![30_000, 100_000] };
+    let deep_cases: Vec<(&str, usize)> = ohmc::props::deep::FAMILIES.iter().flat_map(|f| deep_sizes.iter().map(move |&k| (*f, k))).collect();
+    ctx.run_slice(Slice::new(format!("deep-chains[{:?} operations: chain, chain listed backwards, chain into a 2-cycle, star; one child process each]", deep_sizes), deep_cases.len() as u64, |i, loc| ohmc::props::deep::check_in_child(deep_cases[i as usize].0, deep_cases[i as usize].1, loc)).heavy());
     let meta = Meta {
         rule: "every diagram over the test signature (add, mul, sub 2->1; neg 1->1; copy 1->2; swapinc 2->2; const 0->1; discard 1->0; and 2->1, arities fixed by the label) within the bounds, in every numbering (the universe is closed under renumbering); classified by the reference into cyclic (must be refused), functional (acyclic, single writer, every read node written: outputs and the multiset of interpreter calls are compared for every input vector over {0,1,2,3}) and other acyclic (must return a result); run under the checked and the release-like profile; plus structured families of larger diagrams, enumerated completely for every size parameter up to the stated bound and in five numberings (fan-out/fan-in, k parallel operations, chains, stars, cycles with tails, diamonds, multiplicity k, operations whose predecessors sit at depths j and k of a chain, one node read k times)".into(),
         bounds: "quick: <=3 nodes, <=2 operations (5-letter signature, interfaces <=2), <=3 operations (3-letter signature, interfaces <=1); thorough: full signature with <=2 operations (interfaces <=2) and <=3 operations (interfaces <=1), the 5-letter signature with <=3 operations on <=4 nodes, <=3-4 operations on <=3-4 nodes for sub-signatures".into(),
